@@ -1655,13 +1655,56 @@ func ruleOpMap(c *Ctx) {
 					addCall = ci
 				}
 			}
+			// the message may be added by a small helper every op goes through (emit(t, delta, msg)): the helper's own Add,
+			// unconditional, with its parameters handed straight on, stands for the op's
+			var deltaArg ssa.Value
+			var msgArgs []ssa.Value
+			conditional := false
+			if addCall != nil {
+				deltaArg = addCall.Common().Args[1]
+				msgArgs = variadicValues(addCall.Common().Args[2])
+				conditional = len(pathConds(addCall.Block())) > 0
+			} else {
+				for _, ci := range callsIn(fn) {
+					h := staticCallee(ci.Common())
+					if h == nil || !c.isRepoFunc(h) || pkgOfFunc(h) != pkgOfFunc(fn) || len(h.Blocks) == 0 {
+						continue
+					}
+					for _, hc := range callsIn(h) {
+						if !strings.HasSuffix(calleeName(hc.Common()), "smf.Track.Add") {
+							continue
+						}
+						paramIdx := func(v ssa.Value) int {
+							v = stripConv(v)
+							for i, p := range h.Params {
+								if ssa.Value(p) == v {
+									return i
+								}
+							}
+							return -1
+						}
+						di := paramIdx(hc.Common().Args[1])
+						var mis []int
+						for _, mv := range variadicValues(hc.Common().Args[2]) {
+							mis = append(mis, paramIdx(mv))
+						}
+						if di < 0 || len(mis) != 1 || mis[0] < 0 || di >= len(ci.Common().Args) || mis[0] >= len(ci.Common().Args) {
+							continue
+						}
+						addCall = ci
+						deltaArg = ci.Common().Args[di]
+						msgArgs = []ssa.Value{ci.Common().Args[mis[0]]}
+						conditional = len(pathConds(ci.Block())) > 0 || len(pathConds(hc.Block())) > 0
+					}
+				}
+			}
 			switch {
 			case ctorCall == nil:
 				problem = "does not build its message with " + o.ctor
 			case addCall == nil:
 				problem = "does not add the message to the track"
 			default:
-				if addCall.Common().Args[1] != ssa.Value(delta) {
+				if deltaArg != ssa.Value(delta) {
 					problem = "the delta passed to Track.Add is not the deltaticks parameter"
 				}
 				for i, f := range o.fields {
@@ -1672,7 +1715,7 @@ func ruleOpMap(c *Ctx) {
 				}
 				// message flows into Add (variadic)
 				flows := false
-				for _, mv := range variadicValues(addCall.Common().Args[2]) {
+				for _, mv := range msgArgs {
 					if c.flowsTo(ctorCall, mv) {
 						flows = true
 					}
@@ -1682,7 +1725,7 @@ func ruleOpMap(c *Ctx) {
 				}
 				// on every path: an op that adds nothing for some values loses the event and the time it carries (a note-on
 				// without its note-off, a delta that is never spent)
-				if problem == "" && len(pathConds(addCall.Block())) > 0 {
+				if problem == "" && conditional {
 					problem = "the message is added only under a condition: for some values the event - and the time it carries - is dropped (a note struck and never released when the two ops disagree)"
 				}
 			}
